@@ -208,6 +208,35 @@ def run(ctx):
             scale_ok = any(re.search(rf"\b{re.escape(ev)}\b", g) and "'scale'" in g and S_ in g for g in gtexts)
             ctx.check("C16.R4", f"{name}: rejects more digits than the precision", prec_ok, f.where(), f"{name}: raise guards {gtexts}", "a decimal with more significant digits than the schema's precision must raise")
             ctx.check("C16.R4", f"{name}: rejects more fractional digits than the scale", scale_ok, f.where(), f"{name}: raise guards {gtexts}", "a decimal with more fractional digits than the schema's scale must raise")
+            # digits and exponent describe the number together: a quantity derived from one of them is stale once that
+            # one is rewritten (zeros moved from the exponent into the digit tuple), and must not be used afterwards
+            pos = lambda n_: (n_.lineno, n_.col_offset)
+            rewrites = [st_ for st_ in walk_local(f.node) if isinstance(st_, (ast.Assign, ast.AugAssign)) and st_ is not tup[0] and any(isinstance(n_, ast.Name) and n_.id in (dv, ev) and isinstance(n_.ctx, ast.Store) for t_ in (st_.targets if isinstance(st_, ast.Assign) else [st_.target]) for n_ in ast.walk(t_))]
+            in_rewrite = {id(n_) for st_ in rewrites for n_ in ast.walk(st_)}
+            # a comparison only looks at the derived value (range checks may come after the rewrite): not a use in the number
+            in_rewrite |= {id(n_) for c_ in walk_local(f.node) if isinstance(c_, ast.Compare) for n_ in ast.walk(c_)}
+            # the pair is one description of the number: rewriting either member invalidates what was derived from the other too
+            both = sorted(pos(st_) for st_ in rewrites)
+            stores = {dv: both, ev: both}
+            stale = []
+            for as_ in walk_local(f.node):
+                if not (isinstance(as_, ast.Assign) and len(as_.targets) == 1 and isinstance(as_.targets[0], ast.Name)) or as_.targets[0].id in (dv, ev):
+                    continue
+                x_ = as_.targets[0].id
+                for v_ in (dv, ev):
+                    if not any(isinstance(n_, ast.Name) and n_.id == v_ for n_ in ast.walk(as_.value)):
+                        continue
+                    later = [q for q in stores[v_] if q > pos(as_)]
+                    if not later:
+                        continue
+                    redefs = sorted(pos(n_) for n_ in walk_local(f.node) if isinstance(n_, ast.Name) and n_.id == x_ and isinstance(n_.ctx, ast.Store) and pos(n_) > later[0])
+                    uses = [n_ for n_ in walk_local(f.node) if isinstance(n_, ast.Name) and n_.id == x_ and isinstance(n_.ctx, ast.Load) and pos(n_) > later[0] and id(n_) not in in_rewrite and not (redefs and pos(n_) > redefs[0])]
+                    if uses:
+                        stale.append((as_, v_, uses[0]))
+            for as_, v_, use in stale:
+                ctx.violation("C16.R4", f"{name}: values derived from digits / exponent are used with the digits / exponent they were derived from", f.where(use), f"{name}: `{norm(as_)}` used after `{v_}` is rewritten", f"`{as_.targets[0].id}` still reflects the old `{v_}`: the number assembled from the rewritten digits and the old shift is a different number")
+            if not stale:
+                ctx.holds("C16.R4", f"{name}: values derived from digits / exponent are used with the digits / exponent they were derived from", f.where())
         else:
             ctx.unrecognised("C16.R4", f"{name}: precision / scale checks", f.where(), "the (sign, digits, exponent) unpacking of the datum was not found")
 
